@@ -242,6 +242,42 @@ def twins_oracle(rng):
         except Exception:
             if zoo.all_params(r) != before:
                 fails.append(rep(kind, "rejected-set_params-changed-the-estimator", {"call": "eta=\"high\""}))
+    # a sub-estimator replaced TOGETHER with one of its parameters (what a parameter grid over a module and its
+    # vigilance produces): the new module receives the value, the old one is left alone, and the estimator then
+    # behaves like one constructed that way; the same call with an unknown name added is rejected and changes nothing
+    modkey = {"SimpleARTMAP": "module_a", "ARTMAP": "module_a", "DualVig": "base_module", "BARTMAP": "module_a", "SAM_DV": "module_a"}.get(kind)
+    if modkey is not None:
+        try:
+            with contextlib.redirect_stdout(io.StringIO()):
+                e1, e2 = mk(rho1), mk(rho2)
+                newmod = (lambda r: artlib.DualVigilanceART(fz(r), 0.125)) if kind == "SAM_DV" else fz
+                fresh_mod = newmod(0.5)
+                old_mod = getattr(e1, modkey)
+                old_params = zoo.all_params(old_mod)
+                sub = "base_module__rho" if kind == "SAM_DV" else "rho"
+                args = [(modkey, fresh_mod), (f"{modkey}__{sub}", rho2)]
+                if rng.random() < 0.5:
+                    args.reverse()
+                e1.set_params(**dict(args))
+            if getattr(e1, modkey) is not fresh_mod:
+                fails.append(rep(kind, "set_params-replaced-module-not-installed", {"call": [a[0] for a in args]}))
+            elif zoo.all_params(old_mod) != old_params:
+                fails.append(rep(kind, "set_params-nested-value-went-to-the-replaced-module", {"call": [a[0] for a in args], "old module now": repr(zoo.all_params(old_mod))[:200]}))
+            elif zoo.all_params(e1) != zoo.all_params(e2):
+                fails.append(rep(kind, "set_params-twin-differs-from-constructed", {"call": [a[0] for a in args], "twin": repr(zoo.all_params(e1))[:300], "constructed": repr(zoo.all_params(e2))[:300]}))
+            with contextlib.redirect_stdout(io.StringIO()):
+                e3 = mk(rho1)
+            keep = getattr(e3, modkey)
+            before = (zoo.all_params(e3), sorted(vars(e3)))
+            try:
+                with contextlib.redirect_stdout(io.StringIO()):
+                    e3.set_params(**{modkey: newmod(0.5), "no_such_parameter": 1})
+                fails.append(rep(kind, "unknown-name-accepted"))
+            except Exception:
+                if getattr(e3, modkey) is not keep or (zoo.all_params(e3), sorted(vars(e3))) != before:
+                    fails.append(rep(kind, "rejected-set_params-changed-the-estimator", {"call": f"set_params({modkey}=<new module>, no_such_parameter=1)"}))
+        except Exception as e:
+            fails.append(rep(kind, "module-replacement-raises", {"error": f"{type(e).__name__}: {str(e)[:80]}"}))
     # clone: unfitted, independent, equal hyper-parameters
     try:
         with contextlib.redirect_stdout(io.StringIO()):
